@@ -409,6 +409,18 @@ def e2e_configs(tier):
              writes_per_chunk=2, min_write_sz=500, spill_sz=500, band_chunk=1, scheduler="threads:3"),
         dict(base, H=15, W=17, dtype="float32", chunks=(20, 9), blocksize=[(32, 16), 32, 16], compression="none",
              writes_per_chunk=2, min_write_sz=64, spill_sz=256),
+        # source memory layouts: Fortran order, lazily transposed (F-contiguous blocks), non-contiguous views; tile == chunk,
+        # image a multiple of the tile (no padding copy), uncompressed and compressed
+        dict(base, H=64, W=96, chunks=(32, 32), blocksize=[32], compression="none", memory="transposed"),
+        dict(base, H=64, W=96, chunks=(32, 32), blocksize=[32], compression="none", memory="F", dtype="float32"),
+        dict(base, H=32, W=32, chunks=(32, 32), blocksize=[32], compression="none", memory="F", dtype="uint8"),
+        dict(base, H=64, W=64, chunks=(32, 32), blocksize=[32], compression="none", memory="view"),
+        dict(base, H=64, W=96, chunks=(32, 32), blocksize=[32], compression="none", memory="transposed", axis="YXS", S=3, dtype="uint8"),
+        dict(base, H=64, W=64, chunks=(32, 32), blocksize=[32], compression="none", memory="transposed", axis="SYX", S=2, band_chunk=1),
+        dict(base, H=64, W=96, chunks=(32, 32), blocksize=[32], compression="deflate", memory="transposed"),
+        dict(base, H=50, W=70, compression="none", memory="transposed", dtype="int16"),
+        dict(base, H=50, W=70, compression="zstd", memory="F", axis="YXS", S=2, dtype="uint8"),
+        dict(base, H=48, W=48, chunks=(16, 16), blocksize=[16], compression="lerc", memory="transposed", dtype="uint8"),
         # pixel-interleaved sources chunked along the sample axis (da.stack(bands, axis=-1) style)
         dict(base, H=50, W=70, axis="YXS", S=3, dtype="uint8", band_chunk=1),
         dict(base, H=40, W=40, axis="YXS", S=4, dtype="int16", band_chunk=2, chunks=(16, 40), blocksize=[16], compression="none"),
@@ -491,6 +503,15 @@ def e2e_configs(tier):
             c["band_chunk"] = rng.choice([1, -1])
         elif ax == "YXS" and rng.random() < 0.4:
             c["band_chunk"] = rng.choice([1, 1, 2])
+        if rng.random() < 0.3 and all(isinstance(ch, int) for ch in c["chunks"]):
+            c["memory"] = rng.choice(["F", "transposed", "transposed", "view"])
+            if rng.random() < 0.5:
+                # tile == chunk and the image a multiple of it: blocks reach the compressor without a padding copy
+                t = rng.choice([16, 32])
+                c.update(H=t * rng.choice([1, 2, 3]), W=t * rng.choice([1, 2]), chunks=(t, t), blocksize=[t], compression="none")
+                c.pop("predictor", None)
+                for k in ("level", "kw", "compressionargs"):
+                    c.pop(k, None)
         if rng.random() < 0.06 and not str(c["compression"]).startswith("lerc"):    # LERC refuses bool blocks (loudly)
             c["dtype"] = "bool"
             if c.get("nodata") is not None and not (c["nodata"] == 0 or c["nodata"] == 1):
@@ -899,6 +920,10 @@ def check_decode(cfg, path, pix):
             bad = np.argwhere(arr[:, :H, :W] != p3)[0].tolist()
             msgs.append(f"{name}: pixel {bad} decodes to {arr[tuple(bad)]!r}, input {p3[tuple(bad)]!r} "
                         f"({int((arr[:, :H, :W] != p3).sum())} of {p3.size} differ)")
+        elif cfg.get("nodata") is not None and not (isinstance(cfg["nodata"], float) and cfg["nodata"] != cfg["nodata"]):
+            padv = np.concatenate([arr[:, H:, :].ravel(), arr[:, :H, W:].ravel()])
+            if padv.size and not np.all(padv == np.asarray(cfg["nodata"]).astype(arr.dtype)):
+                msgs.append(f"{name}: padding holds {sorted(set(padv.tolist()))[:4]}, not this file's fill value {cfg['nodata']}")
     return msgs
 
 
@@ -1001,6 +1026,9 @@ def pair_configs(tier):
         dict(a=raw, b=dict(raw, salt=1), same_name=True, parts_base=True, min_write_sz=1024, scheduler="shuffle:3"),
         dict(a=raw, b=None, same_name=True, parts_base=True, min_write_sz=1024, scheduler="threads:4"),
         dict(a=raw, b=dict(raw, salt=5), parts_base=True, min_write_sz=1024, scheduler="shuffle:7"),
+        # the same dask array saved with two different nodata values (= padding fill) in one compute
+        dict(a=dict(base, nodata=1), b=None, b_nodata=2),
+        dict(a=dict(base, nodata=7, axis="SYX", S=2, dtype="uint8", H=33, W=40), b=None, b_nodata=200, scheduler="threads:3"),
     ]
     for i in range(4 if tier == "quick" else 60):
         a = dict(base, H=rng.choice([20, 50, 64]), W=rng.choice([33, 70]), dtype=rng.choice(["uint8", "int16", "float32"]),
